@@ -160,6 +160,11 @@ def base_scenarios(ctx):
             out.append(dict(kind="rej-thr", bs=bs, n=n, table=table, thr=rnd.choice([1, 2, 5]) if ti != 2 else 5))
             out.append(dict(kind="rej-nsim", bs=bs, n=n, table=table, n_sim=n + rnd.randint(0, 6)))
             out.append(dict(kind="rej-q", bs=bs, n=n, table=table, q=rnd.choice([0.5, 0.25, 1.0])))
+    # threshold exactly 0 (exact-match ABC on a discrete simulator) is a valid threshold
+    for table in (TABLES[1], TABLES[3]):
+        for (bs, n) in [(1, 1), (2, 2), (3, 2)]:
+            out.append(dict(kind="rej-thr", bs=bs, n=n, table=table, thr=0))
+    out.append(dict(kind="smc-thr", bs=2, n=2, table=TABLES[3], thrs=[7, 0]))
     for table in TABLES[:1] + TABLES[2:3]:
         for (bs, n) in [(1, 2), (2, 2), (2, 3), (3, 2)]:
             out.append(dict(kind="smc-thr", bs=bs, n=n, table=table, thrs=[6, 5] if table is TABLES[2] else [5, 3, 2]))
